@@ -317,7 +317,24 @@ pub fn large_responses(cfg: &Cfg, rep: &mut Report, pfx: &'static str) {
         let ending = *rng.pick(&ENDINGS);
         render_ending(rng, ending, &mut msg);
         let plan = Plan { msg, units, ending };
-        let (want, _, _) = expected_response(&plan, &scripts);
+        // expected bytes written out here (IEEE 488.2 8.7.9 definite-length block: #<digits><length><bytes>), not through the library
+        let block = |b: &[u8]| -> Vec<u8> {
+            let l = b.len().to_string();
+            [format!("#{}{}", l.len(), l).as_bytes(), b].concat()
+        };
+        let mut want: Vec<u8> = Vec::new();
+        for (i, (h, _)) in plan.units.iter().enumerate() {
+            if i > 0 {
+                want.push(b';');
+            }
+            if *h == 0 {
+                want.extend_from_slice(&block(&pay[..n]));
+            } else {
+                want.extend_from_slice(&block(&pay[..n / 3]));
+                want.extend_from_slice(b",7");
+            }
+        }
+        want.push(b'\n');
         ctx.nontrivial(mix(n as u64, hash_bytes(&plan.msg)));
         ctx.count(&format!("large-responses.total-bytes.{}", if want.len() < (1 << 20) { "<1MiB" } else if want.len() < (1 << 22) { "1-4MiB" } else { ">=4MiB" }));
         let mut dev = Dev::new();
